@@ -3,10 +3,54 @@ import random
 import gridlib as gl
 
 
+def copy_in_construction(rnd, label):
+    """copies (whole, prefix and inner output ranges; copy constructor; assignment) taken while samples are parked: a part of a fixed
+    target set was delivered out of order; afterwards the construction continues on the copy and on the source, one sample per call"""
+    fam = rnd.choice(["sequence", "sequence", "localp", "localp", "wavelet", "global", "fourier"])
+    d = rnd.choice([1, 2, 2])
+    outs = rnd.choice([2, 3, 4])
+    if fam == "global":
+        target = {1: 4, 2: 3}[d]
+        L = ["SCEN " + label, "make global %d %d %d level %s 0 0 0 0" % (d, outs, rnd.choice([0, 1]), rnd.choice(["rleja", "leja", "clenshaw-curtis", "fejer2"]))]
+    elif fam == "fourier":
+        target = {1: 3, 2: 2}[d]
+        L = ["SCEN " + label, "make fourier %d %d %d level 0 0" % (d, outs, rnd.choice([0, 1]))]
+    elif fam == "sequence":
+        target = {1: 5, 2: 4}[d]
+        L = ["SCEN " + label, "make sequence %d %d %d level %s 0 0" % (d, outs, rnd.choice([0, 1]), rnd.choice(gl.SEQ_RULES))]
+    elif fam == "localp":
+        target = {1: 4, 2: 3}[d]
+        L = ["SCEN " + label, "make localp %d %d %d %d %s 0" % (d, outs, rnd.choice([0, 1]), rnd.choice([1, 2]), rnd.choice(gl.LOCAL_RULES))]
+    else:
+        target = {1: 3, 2: 2}[d]
+        L = ["SCEN " + label, "make wavelet %d %d %d 1 0" % (d, outs, rnd.choice([0, 1]))]
+    L.append("begin")
+    L.append("loadtarget 1 %d %d %d %d 0" % (target, rnd.randint(1, 10 ** 6), rnd.choice([1, 1, 2]), rnd.randint(2, 9)))
+    k = rnd.random()
+    if k < 0.6:
+        b = rnd.randint(0, outs - 1)
+        e = rnd.choice([-1] + list(range(b + 1, outs + 1)))
+        L.append("@2 copy %d %d" % (b, e))
+    elif k < 0.8:
+        L.append("@2 copyctor")
+    else:
+        L.append("@2 assign")
+    if rnd.random() < 0.4:
+        L.append("@2 rtswap %d" % rnd.randint(0, 1))
+    first = rnd.choice([1, 2])
+    for o in (first, 3 - first):
+        L.append("%sloadtarget 2 %d %d %d 0 %d" % ("@2 " if o == 2 else "", target, rnd.randint(1, 10 ** 6), rnd.choice([1, 1, 1, 2]), rnd.choice([0, 0, 2])))
+    L.append("finish")
+    L.append("@2 finish")
+    return "\n".join(L) + "\n"
+
+
 def run(ctx):
     rnd = random.Random(ctx.seed + 1111)
     n = 200 if ctx.quick else 1200
     scens = [gl.history(rnd, "c%d" % i, steps=rnd.randint(4, 9), with_copy=True, with_construct=True, with_transform=True, with_coef=(i % 3 == 0)) for i in range(n)]
+    scens += [copy_in_construction(rnd, "k%d" % i) for i in range(n // 3)]
+    scens += [gl.nonnested_history(rnd, "g%d" % i) for i in range(n // 4)]
     gl.run_grid(ctx, [("copy", scens), ("mixed", gl.mixed_family(rnd, max(40, n // 5)))], gl.OBS_NODAL | gl.OBS_RT, "C11")
     ctx.assume("equality of source and copy is judged on the projected state (points, needed, values, limits, transforms, construction flag) and on nodal reproduction; both objects are projected after every step")
 
